@@ -331,3 +331,66 @@ Section Flat.
       destruct a; reflexivity.
   Qed.
 End Flat.
+
+(** ** flattening succeeds: with frame types the flat tracer knows and fuel beyond the nesting depth, [flat_c] returns a
+    trace (so the hypotheses "flat_c ... = Some l" of the theorems above are met by every such frame) *)
+Fixpoint depth_c (f : cframe) : nat :=
+  match f with CF _ _ _ _ _ _ _ _ calls jps _ _ => S (Nat.max (list_max (map depth_c calls)) (list_max (map depth_a jps))) end
+with depth_a (a : aframe) : nat :=
+  match a with AF _ _ _ _ _ _ _ _ _ calls _ _ => S (list_max (map depth_c calls)) end.
+
+Fixpoint types_ok_c (f : cframe) : bool :=
+  match f with CF typ _ _ _ _ _ _ _ calls jps _ _ => flat_type_ok typ && forallb types_ok_c calls && forallb types_ok_a jps end
+with types_ok_a (a : aframe) : bool :=
+  match a with AF _ _ _ _ _ _ _ _ _ calls _ _ => forallb types_ok_c calls end.
+
+Lemma list_max_in l x : In x l -> x <= list_max l.
+Proof.
+  induction l as [|y l IH]; [intros []|]. change (list_max (y :: l)) with (Nat.max y (list_max l)).
+  intros [->|H]; [apply Nat.le_max_l|]. specialize (IH H). etransitivity; [exact IH|apply Nat.le_max_r].
+Qed.
+
+Lemma oseq_imap_some {A} (g : nat -> A -> option (list flat)) l :
+  forall s, (forall i x, In x l -> exists B, g i x = Some B) -> exists bl, oseq (imap g s l) = Some bl.
+Proof.
+  induction l as [|x l IH]; intros s H; [exists []; reflexivity|].
+  rewrite imap_cons. destruct (H s x (or_introl eq_refl)) as [B EB].
+  destruct (IH (S s)) as [bl Ebl]; [intros i y Hy; apply H; right; exact Hy|].
+  exists (B :: bl). cbn. rewrite EB, Ebl. reflexivity.
+Qed.
+
+Section FlatTotal.
+  Variable convert : bool.
+  Lemma flat_total fuel :
+    (forall f addr, types_ok_c f = true -> depth_c f <= fuel -> exists l, flat_c convert fuel f addr = Some l) /\
+    (forall a addr, types_ok_a a = true -> depth_a a <= fuel -> exists l, flat_a convert fuel a addr = Some l).
+  Proof.
+    induction fuel as [|k [IHc IHa]].
+    { split; [intros f|intros f]; intros addr _ H; exfalso; destruct f; simpl in H; inversion H. }
+    split.
+    - intros f addr Ht Hd. rewrite flat_c_S.
+      assert (Hf : flat_type_ok (cf_typ f) = true /\ forallb types_ok_c (cf_calls f) = true /\ forallb types_ok_a (cf_jps f) = true).
+      { destruct f. cbn in Ht |- *. apply andb_prop in Ht as [Ht T3]. apply andb_prop in Ht as [T1 T2]. auto. }
+      destruct Hf as (T1 & T2 & T3). rewrite T1. cbn [negb].
+      assert (Dc : forall c, In c (cf_calls f) -> depth_c c <= k).
+      { intros c Hc. destruct f. cbn in Hd, Hc. pose proof (list_max_in (map depth_c calls) (depth_c c) (in_map _ _ _ Hc)). lia. }
+      assert (Da : forall a, In a (cf_jps f) -> depth_a a <= k).
+      { intros a Ha. destruct f. cbn in Hd, Ha. pose proof (list_max_in (map depth_a jps) (depth_a a) (in_map _ _ _ Ha)). lia. }
+      rewrite forallb_forall in T2, T3.
+      destruct (oseq_imap_some (fun i a => if pre_a a then flat_a convert k a (addr ++ [i]) else Some []) (cf_jps f) 0) as [a Ea].
+      { intros i x Hx. destruct (pre_a x); [apply IHa; [apply T3; exact Hx|apply Da; exact Hx]|eexists; reflexivity]. }
+      destruct (oseq_imap_some (fun i c => flat_c convert k c (addr ++ [i + length (filter pre_a (cf_jps f))])) (cf_calls f) 0) as [b Eb].
+      { intros i x Hx. apply IHc; [apply T2; exact Hx|apply Dc; exact Hx]. }
+      destruct (oseq_imap_some (fun i a => if pre_a a then Some [] else flat_a convert k a (addr ++ [i + length (cf_calls f)])) (cf_jps f) 0) as [c Ec].
+      { intros i x Hx. destruct (pre_a x); [eexists; reflexivity|apply IHa; [apply T3; exact Hx|apply Da; exact Hx]]. }
+      rewrite Ea, Eb, Ec. eexists. reflexivity.
+    - intros a addr Ht Hd. rewrite flat_a_S.
+      assert (T : forallb types_ok_c (af_calls a) = true) by (destruct a; exact Ht).
+      assert (Dc : forall c, In c (af_calls a) -> depth_c c <= k).
+      { intros c Hc. destruct a. cbn in Hd, Hc. pose proof (list_max_in (map depth_c calls) (depth_c c) (in_map _ _ _ Hc)). lia. }
+      rewrite forallb_forall in T.
+      destruct (oseq_imap_some (fun i c => flat_c convert k c (addr ++ [i])) (af_calls a) 0) as [b Eb].
+      { intros i x Hx. apply IHc; [apply T; exact Hx|apply Dc; exact Hx]. }
+      rewrite Eb. eexists. reflexivity.
+  Qed.
+End FlatTotal.
